@@ -334,6 +334,8 @@ class AsyncRun:
                                 out["body"] = body
                     exp = b"body-of-" + call.tok.encode()
                     big = (exp + b"|") * 6
+                    if isinstance(call.url, str) and "/upgrade" in call.url:
+                        exp = big = b""  # 101 Switching Protocols has no body
                     self.event("BodyEnd", r=name, n=len(body), complete=bool(out.get("complete")), bodyok=(exp.startswith(body) or big.startswith(body)) and (not out.get("complete") or body in (exp, big)))
                     await self._gate(name, "close")
                 finally:
@@ -353,6 +355,16 @@ class AsyncRun:
             out["exc_mod"] = type(e).__module__
             out["msg"] = str(e)[:200]
             out["tb"] = traceback.format_exc()[-1500:]
+            # an internal error of the HARNESS itself (raised by code under /verif/harness, a programming-error
+            # class) must never be mistaken for behaviour of httpcore: it stops the check as a machinery failure
+            tb_ = e.__traceback__
+            while tb_ is not None and tb_.tb_next is not None:
+                tb_ = tb_.tb_next
+            inner = tb_.tb_frame.f_code.co_filename if tb_ is not None else ""
+            if isinstance(e, (AttributeError, NameError, TypeError, KeyError, IndexError, UnboundLocalError)) and "/harness/" in inner and "/httpcore/" not in inner:
+                from .tlc import MachineryError
+
+                self.harness_error = MachineryError("the harness itself failed while driving a call:\n" + out["tb"])
         finally:
             if self.record:
                 self.phase[name] = "ended"
@@ -667,6 +679,8 @@ class AsyncRun:
 
     def finish(self):
         """Cancel whatever is still alive and dispose of the loop."""
+        if getattr(self, "harness_error", None) is not None:
+            raise self.harness_error
         self.record = False
         self.final_outcome = {n: dict(o) for n, o in self.outcome.items()}
         for t in self.tasks.values():
